@@ -152,6 +152,13 @@ impl Database {
             })
             .collect();
 
+        let unique_index_names: std::collections::HashSet<String> = table_def
+            .indexes()
+            .iter()
+            .filter(|idx| idx.is_unique())
+            .map(|idx| idx.name().to_string())
+            .collect();
+
         let hnsw_indexes: Vec<String> = table_def
             .indexes()
             .iter()
@@ -591,17 +598,22 @@ impl Database {
 
                 let mut index_btree = BTree::new(&mut *index_storage, index_root_page)?;
 
-                for (_row_key, _old_value, row_values) in &rows_to_delete {
+                let is_unique_index = unique_index_names.contains(index_name.as_str());
+
+                for (row_key, _old_value, row_values) in &rows_to_delete {
                     let all_non_null = col_indices
                         .iter()
                         .all(|&idx| row_values.get(idx).is_some_and(|v| !v.is_null()));
 
-                    if all_non_null {
+                    if all_non_null || !is_unique_index {
                         key_buf.clear();
                         for &col_idx in col_indices {
                             if let Some(value) = row_values.get(col_idx) {
                                 Self::encode_value_as_key(value, &mut key_buf);
                             }
+                        }
+                        if !is_unique_index {
+                            key_buf.extend_from_slice(row_key);
                         }
                         let _ = index_btree.delete(&key_buf);
                     }
